@@ -104,6 +104,7 @@ type Prelude struct {
 	Sigs  map[string]*FnSig
 	Sorts map[string]*Sort // named sorts declared in the prelude
 	Alias map[string]string
+	HeapFns []string
 }
 
 func loadPrelude(dir string) (*Prelude, error) {
@@ -120,6 +121,9 @@ func loadPrelude(dir string) (*Prelude, error) {
 		for _, line := range strings.Split(m.Text, "\n") {
 			if strings.HasPrefix(line, ";; requires:") {
 				m.Requires = append(m.Requires, strings.Fields(strings.TrimPrefix(line, ";; requires:"))...)
+			}
+			if strings.HasPrefix(line, ";; heapfn:") {
+				p.HeapFns = append(p.HeapFns, strings.Fields(strings.TrimPrefix(line, ";; heapfn:"))...)
 			}
 		}
 		forms, err := readSx(m.Text)
